@@ -1,7 +1,174 @@
 import Driver.Util
-open Lean
+import Heph.Model.Oracle
+/-! Ops of the family `oracle` (model of `check_oracle` and the statistics of `hephaestus.py`).
+
+* `oracle.check`   {variant, dir, progs, outcome, fs} → {status, reported, fs}
+* `oracle.session` {variant, mode, rounds:[{stage, dir, progs, outcome, time}], fs}
+                   → {status, passed, failed, time, faults, fs}   (a history of batches)
+* `oracle.run`     {variant, mode, batch, progs:[{prog, staged, rejected, crash}]}
+                   → {status, passed, failed, time, faults, fs}   (the loop `_run`)
+* `oracle.stop_condition` {seconds, iterations, batch, stop, iteration, time_passed} → bool
+* `oracle.get_batches`    {seconds, iterations, batch, programs} → int | "TypeError"
+
+paths are `["tmp", pid]`, `["saved", pid]`, `["batch", n]`; a file system answer is sorted. -/
+open Lean Heph.Oracle
 namespace Driver.Oracle
 
-def handle : Handler := fun _ _ => none
+def optStr (j : Json) : Except String (Option String) :=
+  match j with
+  | .null => pure none
+  | .str s => pure (some s)
+  | _ => throw "expected string or null"
+
+def optNat (j : Json) : Except String (Option Nat) :=
+  match j with
+  | .null => pure none
+  | _ => do pure (some (← j.getNat?))
+
+def parseFiles (j : Json) : Except String (List (Nat × Bool)) := do
+  let a ← j.getArr?
+  a.toList.mapM fun e => do
+    let p ← e.getArr?
+    if p.size != 2 then throw "file must be [id, expected]"
+    pure (← p[0]!.getNat?, ← p[1]!.getBool?)
+
+def parseProg (j : Json) : Except String Prog := do
+  let pid ← getNat j "pid"
+  let failed ← getBool j "failed"
+  let files ← parseFiles (← j.getObjVal? "files")
+  let err ← optStr (← j.getObjVal? "err")
+  let time := (j.getObjValAs? Nat "time").toOption.getD 0
+  pure { pid := pid, toolFailed := failed, files := files, err := err, time := time }
+
+def parseMsgs (j : Json) : Except String (List (Nat × List String)) := do
+  let a ← j.getArr?
+  a.toList.mapM fun e => do
+    let p ← e.getArr?
+    if p.size != 2 then throw "failed entry must be [file, [messages]]"
+    let ms ← (← p[1]!.getArr?).toList.mapM fun m => m.getStr?
+    pure (← p[0]!.getNat?, ms)
+
+def parseOutcome (j : Json) : Except String Outcome := do
+  pure ⟨← parseMsgs (← j.getObjVal? "failed"), ← optStr (← j.getObjVal? "crash")⟩
+
+def parsePath (j : Json) : Except String Path := do
+  let p ← j.getArr?
+  if p.size != 2 then throw "path must be [kind, n]"
+  let n ← p[1]!.getNat?
+  match ← p[0]!.getStr? with
+  | "tmp" => pure (.tmp n)
+  | "saved" => pure (.saved n)
+  | "batch" => pure (.batch n)
+  | k => throw s!"unknown path kind {k}"
+
+def parseFS (j : Json) : Except String FS := do
+  (← j.getArr?).toList.mapM parsePath
+
+def parseProgs (j : Json) : Except String (List Prog) := do
+  (← j.getArr?).toList.mapM parseProg
+
+def parseVariant (j : Json) : Except String Variant := do
+  match ← getStr j "variant" with
+  | "asis" => pure .asIs
+  | "repaired" => pure .repaired
+  | "both-only" => pure ⟨true, false⟩
+  | "crash-only" => pure ⟨false, true⟩
+  | k => throw s!"unknown variant {k}"
+
+def parseMode (j : Json) : Except String Mode := do
+  match ← getStr j "mode" with
+  | "seq" => pure .sequential
+  | "pool" => pure .pool
+  | k => throw s!"unknown mode {k}"
+
+def pathKey : Path → Nat × Nat
+  | .batch n => (0, n)
+  | .saved n => (1, n)
+  | .tmp n => (2, n)
+
+def pathJson : Path → Json
+  | .tmp n => Json.arr #[Json.str "tmp", Json.num (JsonNumber.fromNat n)]
+  | .saved n => Json.arr #[Json.str "saved", Json.num (JsonNumber.fromNat n)]
+  | .batch n => Json.arr #[Json.str "batch", Json.num (JsonNumber.fromNat n)]
+
+def fsJson (fs : FS) : Json :=
+  let a := fs.toArray.qsort fun x y =>
+    let kx := pathKey x; let ky := pathKey y
+    kx.1 < ky.1 || (kx.1 == ky.1 && kx.2 < ky.2)
+  Json.arr (a.map pathJson)
+
+def msgJson : Option String → Json
+  | none => Json.null
+  | some s => Json.str s
+
+def reportedJson (r : Reported) : Json :=
+  Json.arr (r.toArray.map fun kv => Json.arr #[Json.num (JsonNumber.fromNat kv.1), msgJson kv.2])
+
+def kindStr : ErrKind → String
+  | .fileExists => "FileExistsError"
+  | .fileNotFound => "FileNotFoundError"
+  | .typeError => "TypeError"
+
+def intJson (i : Int) : Json := Json.num (JsonNumber.fromInt i)
+
+def statsFields (status : String) (s : Stats) (fs : FS) : Json :=
+  let sv := saveStats s
+  Json.mkObj [("status", Json.str status), ("passed", intJson sv.passed),
+    ("failed", Json.num (JsonNumber.fromNat sv.failed)), ("time", Json.num (JsonNumber.fromNat sv.time)),
+    ("faults", Json.arr (sv.faults.toArray.map fun kv => Json.arr #[Json.str kv.1, msgJson kv.2])),
+    ("fs", fsJson fs)]
+
+def parseRound (j : Json) : Except String Round := do
+  pure { stage := ← parseFS (← j.getObjVal? "stage")
+         batch := ⟨← getNat j "dir", ← parseProgs (← j.getObjVal? "progs")⟩
+         outcome := ← parseOutcome (← j.getObjVal? "outcome")
+         time := ← getNat j "time" }
+
+def parseSProg (j : Json) : Except String SProg := do
+  pure { prog := ← parseProg (← j.getObjVal? "prog")
+         staged := ← getBool j "staged"
+         rejected := ← parseMsgs (← j.getObjVal? "rejected")
+         crash := ← getBool j "crash" }
+
+def parseCfg (j : Json) : Except String Cfg := do
+  pure ⟨← optNat (← j.getObjVal? "seconds"), ← optNat (← j.getObjVal? "iterations"), ← getNat j "batch"⟩
+
+def handle : Handler := fun op j =>
+  match op with
+  | "oracle.check" => some do
+      let v ← parseVariant j
+      let b : Batch := ⟨← getNat j "dir", ← parseProgs (← j.getObjVal? "progs")⟩
+      let o ← parseOutcome (← j.getObjVal? "outcome")
+      let fs ← parseFS (← j.getObjVal? "fs")
+      pure <| res <| match checkOracleV v b o fs with
+        | .ok (r, fs') => Json.mkObj [("status", Json.str "ok"), ("reported", reportedJson r), ("fs", fsJson fs')]
+        | .error e => Json.mkObj [("status", Json.str (kindStr e.kind)), ("fs", fsJson e.fs)]
+  | "oracle.session" => some do
+      let v ← parseVariant j
+      let m ← parseMode j
+      let rounds ← (← getArr j "rounds").toList.mapM parseRound
+      let fs ← parseFS (← j.getObjVal? "fs")
+      pure <| res <| match runHistory v m (Stats.init, fs) rounds with
+        | .ok (s, fs') => statsFields "ok" s fs'
+        | .error (e, s) => statsFields (kindStr e.kind) s e.fs
+  | "oracle.run" => some do
+      let v ← parseVariant j
+      let m ← parseMode j
+      let batch ← getNat j "batch"
+      let sps ← (← getArr j "progs").toList.mapM parseSProg
+      pure <| res <| match runSession v m batch sps with
+        | .done s fs => statsFields "ok" s fs
+        | .aborted e s => statsFields (kindStr e.kind) s e.fs
+        | .typeError s fs => statsFields "TypeError" s fs
+        | .fuel s fs => statsFields "fuel" s fs
+  | "oracle.stop_condition" => some do
+      let c ← parseCfg j
+      pure <| res <| Json.bool (stopCondition c (← getBool j "stop") (← getNat j "iteration") (← getNat j "time_passed"))
+  | "oracle.get_batches" => some do
+      let c ← parseCfg j
+      pure <| res <| match getBatches c (← getNat j "programs") with
+        | some n => intJson n
+        | none => Json.str "TypeError"
+  | _ => none
 
 end Driver.Oracle
